@@ -37,11 +37,10 @@ def DEPOSIT_CONTRACT_TREE_DEPTH : LExpr := 32
 def JUSTIFICATION_BITS_LENGTH : LExpr := 4
 def ATTESTATION_SUBNET_COUNT : LExpr := 64
 def SYNC_COMMITTEE_SUBNET_COUNT : LExpr := 4
--- NOTE: the bellatrix preset files list these two as preset values (256 and 32 in both published presets).
--- zrnt hard-codes them as package constants (its SSZ types ignore the Spec fields of the same name), so a
--- custom preset that changes them is outside what the correspondence run varies; they are literals here.
-def BYTES_PER_LOGS_BLOOM : LExpr := 256
-def MAX_EXTRA_DATA_BYTES : LExpr := 32
+-- bellatrix preset values (256 and 32 in both published presets). zrnt hard-codes them as package constants and
+-- ignores the Spec fields of the same name: see `Zrnt.Schema.KnownDeviations` and the `xdata` preset of the harness.
+def BYTES_PER_LOGS_BLOOM : LExpr := c n!"BYTES_PER_LOGS_BLOOM"
+def MAX_EXTRA_DATA_BYTES : LExpr := c n!"MAX_EXTRA_DATA_BYTES"
 
 -- phase0/beacon-chain.md, "Misc dependencies"
 def Fork := struct [(n!"previous_version", Version), (n!"current_version", Version), (n!"epoch", Epoch)]
